@@ -54,6 +54,8 @@ func checkC06(c *Ctx) {
 	c.Expect("C06-R19", 1)
 	c.Rule("C06-R20", "Suspend and Fini return while the user is idle: the Drain of the stdin Tty gets a read(2) already in progress to return by making the descriptor non-blocking (VMIN=0 only affects later reads), and Start makes it blocking again")
 	c.Expect("C06-R20", 2)
+	c.Rule("C06-R21", "further calls on a finished simulation do not panic: where the physical cell array is dropped, the bounds that index it (physw, physh) are reset with it")
+	c.Expect("C06-R21", 1)
 	c.Rule("C06-R17", "Fini returns (does not panic) on a screen whose Init failed: what Init creates (the quit channel, a Tty it opens itself) is closed or called on the shutdown path only behind a non-nil test or the running flag, in the terminfo screen as in the simulation")
 	c.Expect("C06-R17", 2)
 	c.Rule("C06-R16", "the read deadline that gets the input loop out of a blocked Read keeps working: a Tty implementation that opens its own handle and wakes its reader with a deadline never calls Fd() on that handle (Fd switches the descriptor to blocking mode; Suspend and Fini would wait for the next key)")
@@ -88,6 +90,7 @@ func checkC06(c *Ctx) {
 		checkReportedSizeStoredWithEvent(c, p, "C06-R18", "tScreen")
 		checkStopBeforeDrain(c, p, "C06-R19", "tScreen")
 		checkDrainMakesDescriptorNonBlocking(c, p, "C06-R20")
+		checkSimFiniResetsBounds(c, p, "C06-R21")
 		checkFiniSafeBeforeInit(c, p, "C06-R17", "simscreen")
 		for _, f := range []string{"tty", "ti"} {
 			ws := []string{}
